@@ -97,3 +97,549 @@ def regenerate(ctx):
         np.pi = saved_pi
     src += 'end KawinV.Gen.C15\n'
     return [os.path.relpath(GEN_FILE, vlib.VERIF)] if vlib.write_if_changed(GEN_FILE, src) else []
+
+
+# ------------------------------------------------------------------ helpers
+SID = {'needle': 0, 'plate': 1, 'cuboid': 2, 'sphere': 3}
+KGRID = list(range(1, 16))                    # 1 + 10^-k
+CONT_TOL = 1e-5                               # relative jump tolerated at ar = 1 (see META.level_note)
+
+
+def desc(SF, sh):
+    return getattr(SF, CLS[sh])()
+
+
+def arfun(kind, p0, p1, p2):
+    if kind == 0:
+        return lambda R: p0
+    if kind == 1:
+        return lambda R: p0 + p1 * (R / p2)
+    if kind == 2:
+        return lambda R: p0 * (R / p2) ** p1
+    return lambda R: p0 + p1 / (1.0 + R / p2)
+
+
+def fine_grid(n):
+    """[1, 100]: uniform + logarithmic + 1 + 10^-k, sorted, unique"""
+    g = np.concatenate([np.linspace(1.0, 100.0, n), np.exp(np.linspace(0.0, math.log(100.0), n)),
+                        1.0 + 10.0 ** (-np.array(KGRID, dtype=float)), [1.0, 100.0]])
+    g = np.unique(np.clip(g, 1.0, 100.0))
+    return g
+
+
+# ---- quadrature references (independent of the closed forms)
+def quad_area_ratio(a, c):
+    """area of the spheroid with equatorial semi-axis a and polar semi-axis c / area of the equal-volume sphere;
+    surface of revolution: S = 4 pi a * int_0^c sqrt(1 + z^2 (a^2 - c^2)/c^4) dz"""
+    from scipy.integrate import quad
+    k = (a * a - c * c) / c ** 4
+    val, err = quad(lambda z: math.sqrt(max(0.0, 1.0 + z * z * k)), 0.0, c, epsabs=0, epsrel=1e-12, limit=400)
+    S = 4 * math.pi * a * val
+    R = (a * a * c) ** (1.0 / 3.0)
+    return S / (4 * math.pi * R * R)
+
+
+def quad_cap_ratio(a, c):
+    """capacitance of the spheroid (a, a, c) / equal-volume radius; C = 2 / int_0^inf dt / sqrt((a^2+t)^2 (c^2+t))
+    (sphere of radius R: C = R)"""
+    from scipy.integrate import quad
+    f = lambda t: 1.0 / ((a * a + t) * math.sqrt(c * c + t))
+    L = 10.0 * max(a, c) ** 2
+    v1, _ = quad(f, 0.0, L, epsabs=0, epsrel=1e-12, limit=400)
+    # tail with t = L / u^2, u in (0, 1]:  dt = -2 L / u^3 du
+    g = lambda u: (2.0 * L / u ** 3) * f(L / (u * u)) if u > 0 else 0.0
+    v2, _ = quad(g, 0.0, 1.0, epsabs=0, epsrel=1e-12, limit=400)
+    C = 2.0 / (v1 + v2)
+    R = (a * a * c) ** (1.0 / 3.0)
+    return C / R
+
+
+# ------------------------------------------------------------------ oracle predicates on the real functions
+# each returns a list of (key, what, observed, required); `args` is JSON-able and enough to replay
+def chk_axes(SF, args):
+    sh, ars = args['shape'], np.array(args['ars'], dtype=float)
+    d = desc(SF, sh)
+    out = []
+    rad = np.atleast_2d(d.normalRadii(ars.copy()))
+    eff = np.maximum(ars, 1.0)
+    for i, ar in enumerate(eff):
+        r = rad[i]
+        vol = r[0] * r[1] * r[2] * (1.0 if sh == 'cuboid' else 4 * math.pi / 3)
+        if not close(vol, 1.0, 1e-12):
+            out.append(('unit-volume:' + sh, 'semi-axes for ar=%r do not give unit volume' % float(ars[i]), float(vol), 1.0)); break
+        lo, hi = float(np.min(r)), float(np.max(r))
+        want = 1.0 if sh == 'sphere' else float(ar)
+        if not close(hi / lo, want, 1e-12):
+            out.append(('aspect:' + sh, 'long/short semi-axis for ar=%r' % float(ars[i]), hi / lo, want)); break
+        mid = float(np.sort(r)[1])
+        twin = lo if sh in ('needle', 'cuboid') else hi
+        if sh != 'sphere' and not close(mid, twin, 1e-14):
+            out.append(('axes-pair:' + sh, 'the two equal axes differ for ar=%r' % float(ars[i]), mid, twin)); break
+    return out
+
+
+def chk_quad(SF, args):
+    sh, ar = args['shape'], float(args['ar'])
+    d = desc(SF, sh)
+    out = []
+    th, kin, eq = float(d.thermoFactor(ar)), float(d.kineticFactor(ar)), float(d.eqRadiusFactor(ar))
+    if sh == 'needle':
+        a, c = 1.0, ar
+        eqw = ar ** (1 / 3)
+    elif sh == 'plate':
+        a, c = ar, 1.0
+        eqw = ar ** (2 / 3)
+    else:   # cuboid: elementary geometry, edges 1, 1, ar
+        R = (3 * ar / (4 * math.pi)) ** (1 / 3)
+        want = (2 + 4 * ar) / (4 * math.pi * R * R)
+        if not close(th, want, 1e-12):
+            out.append(('thermo-vs-geometry:cuboid', 'thermoFactor(%r) is not cuboid area / equal-volume sphere area' % ar, th, want))
+        if not close(eq, R, 1e-12):
+            out.append(('eqradius-vs-geometry:cuboid', 'eqRadiusFactor(%r) is not the equal-volume radius of the 1x1xar cuboid' % ar, eq, R))
+        return out
+    wa = quad_area_ratio(a, c)
+    wc = quad_cap_ratio(a, c)
+    if not close(th, wa, 1e-7):
+        out.append(('thermo-vs-area-integral:' + sh, 'thermoFactor(%r) differs from the quadrature of the spheroid area / sphere area' % ar, th, wa))
+    if not close(kin, wc, 1e-7):
+        out.append(('kinetic-vs-capacitance-integral:' + sh, 'kineticFactor(%r) differs from the quadrature of the capacitance / equal-volume radius' % ar, kin, wc))
+    if not close(eq, eqw, 1e-12):
+        out.append(('eqradius-vs-geometry:' + sh, 'eqRadiusFactor(%r) is not the equal-volume radius for short axis 1' % ar, eq, eqw))
+    return out
+
+
+def chk_at_one(SF, args):
+    """wrappers at and below 1: the …Min constants; needle/plate/sphere: exactly 1"""
+    sh = args['shape']
+    d = desc(SF, sh)
+    out = []
+    for fn, mn in zip(WRAP, MINS):
+        m = float(getattr(d, mn))
+        ref = float(getattr(d, fn)(1.0))
+        if ref != m:
+            out.append(('value-at-1:%s:%s' % (sh, fn), '%s(1) is not the %s constant' % (fn, mn), ref, m))
+        if sh != 'cuboid' and ref != 1.0:
+            out.append(('value-at-1-is-1:%s:%s' % (sh, fn), '%s(1) != 1' % fn, ref, 1.0))
+        for x in args['below']:
+            v = float(getattr(d, fn)(x))
+            if v != ref:
+                out.append(('below-1-as-1:%s:%s' % (sh, fn), '%s(%r) differs from %s(1)' % (fn, x, fn), v, ref)); break
+    r1 = np.asarray(d.normalRadii(1.0), dtype=float)
+    for x in args['below']:
+        rx = np.asarray(d.normalRadii(x), dtype=float)
+        if not np.array_equal(rx, r1):
+            out.append(('below-1-as-1:%s:normalRadii' % sh, 'normalRadii(%r) differs from normalRadii(1)' % x, rx.tolist(), r1.tolist())); break
+    return out
+
+
+def chk_continuity(SF, args):
+    sh, fn, k = args['shape'], args['fn'], int(args['k'])
+    d = desc(SF, sh)
+    lo, hi = 1.0, 1.0 + 10.0 ** (-k)
+    f = getattr(d, fn)
+    a, b = np.asarray(f(lo), dtype=float), np.asarray(f(hi), dtype=float)
+    tol = CONT_TOL + 3 * 10.0 ** (-k)
+    bad = np.abs(b - a) > tol * np.maximum(np.abs(a), 1e-300)
+    if np.any(bad):
+        return [('continuity-at-1:%s:%s' % (sh, fn), '%s jumps at aspect ratio 1: %s(1) vs %s(1+1e-%d)' % (fn, fn, fn, k),
+                 {'ar_lo': lo, 'value_lo': a.tolist(), 'ar_hi': hi, 'value_hi': b.tolist()}, 'relative difference <= %g' % tol)]
+    return []
+
+
+def chk_monotone(SF, args):
+    sh, fn = args['shape'], args['fn']
+    d = desc(SF, sh)
+    g = np.array(args['grid'], dtype=float)
+    v = np.asarray(getattr(d, fn)(g.copy()), dtype=float)
+    out = []
+    if not np.all(np.isfinite(v)):
+        i = int(np.argmax(~np.isfinite(v)))
+        return [('finite:%s:%s' % (sh, fn), '%s(%r) is not finite' % (fn, float(g[i])), float(v[i]), 'finite')]
+    if v[0] != 1.0 or np.any(v < 1.0 - 1e-9):
+        i = int(np.argmax(v < 1.0 - 1e-9)) if np.any(v < 1.0 - 1e-9) else 0
+        out.append(('at-least-1:%s:%s' % (sh, fn), '%s(%r) < 1 (or != 1 at ar = 1)' % (fn, float(g[i])), float(v[i]), '>= 1, = 1 at ar = 1'))
+    dv = np.diff(v)
+    # rounding noise of the source formulas near ar = 1 is ~1e-16/e (e = eccentricity): allow 1e-9 below 1.001, 1e-12 above
+    slack = np.where(g[1:] < 1.001, 1e-9, 1e-12) * np.abs(v[1:])
+    bad = dv < -slack
+    strict = (g[1:] / g[:-1] >= 1.001) & (dv <= 0)
+    if np.any(bad) or np.any(strict):
+        i = int(np.argmax(bad | strict))
+        out.append(('monotone:%s:%s' % (sh, fn), '%s does not increase between ar=%r and ar=%r' % (fn, float(g[i]), float(g[i + 1])),
+                    [float(v[i]), float(v[i + 1])], 'increasing'))
+    return out
+
+
+CONTAINERS = ['ndarray', 'ndarray', 'ndarray', 'int-ndarray', 'list', '0d', 'pyfloat', 'npfloat', '2d']
+
+
+def make_arg(kind, vals):
+    if kind == 'ndarray':
+        return np.array(vals, dtype=float)
+    if kind == 'int-ndarray':
+        return np.array([int(round(v)) for v in vals], dtype=int)
+    if kind == 'list':
+        return [float(v) for v in vals]
+    if kind == '0d':
+        return np.array(float(vals[0]))
+    if kind == 'pyfloat':
+        return float(vals[0])
+    if kind == 'npfloat':
+        return np.float64(vals[0])
+    if kind == '2d':
+        return np.array(vals, dtype=float).reshape(2, -1)
+    raise ValueError(kind)
+
+
+def snapshot(x):
+    return x.copy() if isinstance(x, np.ndarray) else (list(x) if isinstance(x, list) else x)
+
+
+def same(x, y):
+    if isinstance(x, np.ndarray):
+        return isinstance(y, np.ndarray) and x.shape == y.shape and x.dtype == y.dtype and np.array_equal(x, y, equal_nan=x.dtype.kind == 'f')
+    if isinstance(x, float) and math.isnan(x):
+        return isinstance(y, float) and math.isnan(y)
+    return type(x) is type(y) and x == y
+
+
+def run_wrapper(SF, args):
+    """call one public wrapper; returns (flat output, argument unchanged?, flat values actually passed)"""
+    d = desc(SF, args['shape'])
+    x = make_arg(args['container'], args['vals'])
+    before = snapshot(x)
+    out = getattr(d, args['fn'])(x)
+    flat_in = np.asarray(before, dtype=float).reshape(-1)
+    return np.asarray(out, dtype=float).reshape(-1), same(before, x), flat_in, (np.asarray(x, dtype=float).reshape(-1))
+
+
+def chk_wrapper(SF, args):
+    """no mutation; array call = scalar calls element-wise"""
+    out, unchanged, flat_in, flat_after = run_wrapper(SF, args)
+    res = []
+    sh, fn = args['shape'], args['fn']
+    if not unchanged:
+        res.append(('argument-modified:%s' % args['container'], '%s.%s wrote into the caller\'s %s argument' % (CLS[sh], fn, args['container']),
+                    flat_after.tolist(), flat_in.tolist()))
+    d = desc(SF, sh)
+    w = 3 if fn == 'normalRadii' else 1
+    sc = []
+    for v in flat_in:
+        sc += np.asarray(getattr(d, fn)(float(v)), dtype=float).reshape(-1).tolist()
+    if len(sc) != len(out) or not all(close(a, b, 1e-13) for a, b in zip(out, sc)):
+        res.append(('scalar-vs-array:%s:%s' % (sh, fn), 'array call differs from the scalar calls element by element', out.tolist(), sc))
+    return res
+
+
+def run_bisect(SF, args):
+    sf = SF.ShapeFactor()
+    k, p0, p1, p2 = args['kind'], args['p0'], args['p1'], args['p2']
+    if args.get('scalar_ar'):
+        sf.setPrecipitateShape(CLS_NAME[args['shape']], p0)
+    else:
+        sf.setPrecipitateShape(CLS_NAME[args['shape']], arfun(k, p0, p1, p2))
+    sf.tol = args['tol']
+    calls = []
+    real_tf = sf.thermoFactor
+
+    def counting(R):
+        v = real_tf(R)
+        calls.append((float(R), float(v)))
+        return v
+    sf.thermoFactor = counting
+    r = float(sf.findRcrit(args['Rs'], args['Rmax']))
+    sf.thermoFactor = real_tf
+    return sf, r, calls
+
+
+CLS_NAME = {'needle': 'needle', 'plate': 'plate', 'cuboid': 'cubic', 'sphere': 'sphere'}
+
+
+def chk_bisect(SF, args):
+    sf, r, calls = run_bisect(SF, args)
+    Rs, Rmax, tol = args['Rs'], args['Rmax'], args['tol']
+    obj = lambda R: R / (Rs * float(sf.thermoFactor(R))) - 1
+    out = []
+    if args.get('scalar_ar'):
+        if abs(obj(r)) > 1e-14:
+            out.append(('rcrit-scalar-not-root', 'findRcrit with a scalar aspect ratio is not a root of R = Rs*thermoFactor', obj(r), 0.0))
+        return out
+    iters = len(calls) - 3
+    fmin, fmax = obj(Rs), obj(Rmax)
+    if iters >= 100:
+        if r != Rs or iters != 100:
+            out.append(('bisect-cap', 'after the iteration cap the fallback RcritSphere must be returned (100 iterations)', [r, iters], [Rs, 100]))
+        if fmin * fmax < 0 and tol >= 1e-9:
+            out.append(('bisect-bracketed-root-not-found', 'objective changes sign on [Rs, Rmax] but the search hit the iteration cap and returned RcritSphere',
+                        {'r': r, 'f(Rs)': fmin, 'f(Rmax)': fmax}, '|f(r)| <= tol'))
+    else:
+        if not (abs(obj(r)) <= tol * (1 + 1e-9)):
+            out.append(('bisect-result-not-root', 'returned radius does not satisfy |r/(Rs*f(r)) - 1| <= tol', abs(obj(r)), tol))
+        if not (min(Rs, Rmax) <= r <= max(Rs, Rmax)):
+            out.append(('bisect-result-outside-bracket', 'returned radius outside [Rs, Rmax]', r, [Rs, Rmax]))
+    return out
+
+
+CHECKS = {'axes': chk_axes, 'quad': chk_quad, 'at_one': chk_at_one, 'continuity': chk_continuity,
+          'monotone': chk_monotone, 'wrapper': chk_wrapper, 'bisect': chk_bisect}
+
+
+def apply_check(res, SF, name, args, short=None):
+    """run one oracle predicate; violations carry what replay needs"""
+    for key, what, obs, req in CHECKS[name](SF, args):
+        res.violate(key, what, {'chk': name, 'args': short if short is not None else args}, obs, req)
+
+
+# ------------------------------------------------------------------ case generators
+def gen_vals(rng, n):
+    vals = []
+    for _ in range(n):
+        c = rng.random()
+        if c < 0.25:
+            vals.append(rng.choice([0.0, 0.3, 0.5, -2.0, 0.999999, 1.0 - 1e-12, 0.9]))
+        elif c < 0.40:
+            vals.append(1.0)
+        elif c < 0.50:
+            vals.append(1.0 + 10.0 ** (-rng.randint(3, 12)))
+        elif c < 0.97:
+            vals.append(math.exp(rng.uniform(0.0, math.log(100.0))))
+        else:
+            vals.append(float('nan'))
+    return vals
+
+
+def gen_wrapper_case(rng):
+    sh = rng.choice(SHAPES)
+    fn = rng.choice(WRAP + ['normalRadii'])
+    cont = rng.choice(CONTAINERS)
+    if cont == '2d' and fn == 'normalRadii':
+        cont = 'ndarray'
+    n = 1 if cont in ('0d', 'pyfloat', 'npfloat') else (2 * rng.randint(1, 4) if cont == '2d' else rng.choice([1, 1, 2, 3, 5, 8, 13]))
+    vals = gen_vals(rng, n)
+    if cont == 'int-ndarray':
+        vals = [float(rng.choice([0, 1, 1, 2, 3, 7, 50, -1])) for _ in range(n)]
+    if fn == 'normalRadii':
+        vals = [v for v in vals if not math.isnan(v)] or [2.0]
+        if cont in ('0d', 'pyfloat', 'npfloat'):
+            vals = vals[:1]
+    return {'shape': sh, 'fn': fn, 'container': cont, 'vals': vals}
+
+
+def gen_bisect_case(rng):
+    sh = rng.choice(['needle', 'needle', 'plate', 'plate', 'cuboid', 'sphere'])
+    kind = rng.choice([0, 1, 1, 2, 2, 3])
+    Rs = 10 ** rng.uniform(-10, -8)
+    Rmax = Rs * rng.choice([1.05, 1.3, 2.0, 3.0, 5.0, 10.0, 30.0]) * rng.uniform(1.0, 1.2)
+    if kind == 0:
+        p0, p1 = rng.choice([1.0, 0.5, 2.3, 7.0, 40.0]), 0.0
+    elif kind == 1:
+        p0, p1 = rng.choice([0.2, 0.8, 1.0, 1.5, 3.0]), rng.choice([0.1, 0.5, 1.0, 2.0])
+    elif kind == 2:
+        p0, p1 = rng.choice([0.7, 1.0, 2.3, 5.0]), rng.choice([0.5, 1.1, 2.0, -0.5])
+    else:
+        p0, p1 = rng.choice([0.5, 1.0, 2.0]), rng.choice([1.0, 5.0, 30.0])
+    tol = rng.choice([1e-3, 1e-3, 1e-3, 1e-2, 1e-6, 1e-9])
+    return {'shape': sh, 'kind': kind, 'p0': p0, 'p1': p1, 'p2': Rs, 'tol': tol, 'Rs': Rs, 'Rmax': Rmax}
+
+
+# ------------------------------------------------------------------ correspondence + oracle
+def corr(ctx, oracle_only=False, scale=1):
+    res = Result()
+    res.rule = ('(A) generated defs: 4 shapes x aspect ratios log-uniform/uniform on [1+1e-6, 100] + fixed points; '
+                '(B) public wrappers: 4 shapes x {eqRadiusFactor, thermoFactor, kineticFactor, normalRadii} x container '
+                '(float/int ndarray, list, 0-d, python/numpy scalar, 2-d) x values below 1 / at 1 / 1+10^-k / up to 100 / NaN; '
+                '(C) _findRcrit: 4 shapes x 4 aspect-ratio function families x bracket width x tol; '
+                '(D) grids on [1,100] and 1+10^-k, k=1..15, quadrature at random ratios. '
+                'non-trivial = aspect ratio > 1 involved (A,B,D) / more than 0 iterations (C); distinct = full case tuple')
+    res.monitored = list(MONITORED)
+    SF = load()
+    rng = ctx.rng
+    use_model = ctx.driver_ok and not oracle_only
+    lines, after = [], []          # driver lines and what to do with each answer
+
+    # ---------------- (A) translator validation
+    nA = ctx.n(300, 6000) * scale
+    for sh in SHAPES:
+        d = desc(SF, sh)
+        ars = [1.000001, 1.001, 1.5, 2.0, 10.0, 100.0]
+        ars += [math.exp(rng.uniform(math.log(1.000001), math.log(100.0))) for _ in range(nA // 2)]
+        ars += [rng.uniform(1.0001, 100.0) for _ in range(nA // 2)]
+        arr = np.array(ars)
+        impl = np.column_stack([np.atleast_2d(d._normalRadii(arr.copy())), d._eqRadius(arr.copy()),
+                                d._thermoFactor(arr.copy()), d._kineticFactor(arr.copy())])
+        mins = [float(getattr(d, m)) for m in MINS]
+        for a in ars:
+            res.case(('A', sh, a), True)
+        res.count('A:' + sh, len(ars))
+        if len(res.samples) < 1:
+            res.sample({'part': 'A', 'shape': sh, 'ar': ars[7], 'r0 r1 r2 eqRadius thermo kinetic': impl[7].tolist()})
+        if use_model:
+            lines.append('c15.gen %d %s' % (SID[sh], enc_list(ars))); after.append(('gen', sh, ars, impl))
+            lines.append('c15.mins %d' % SID[sh]); after.append(('mins', sh, mins))
+
+    # ---------------- (B) wrappers
+    nB = ctx.n(500, 12000) * scale
+    for i in range(nB):
+        c = gen_wrapper_case(rng)
+        try:
+            out, unchanged, flat_in, flat_after = run_wrapper(SF, c)
+        except Exception as e:
+            res.violate('wrapper-raises:%s:%s' % (c['shape'], c['fn']), 'public function raised %r' % e, {'chk': 'wrapper', 'args': c})
+            continue
+        nontriv = bool(np.any(flat_in > 1))
+        res.case(('B', c['shape'], c['fn'], c['container'], tuple(repr(v) for v in c['vals'])), nontriv)
+        res.count('B:container:' + c['container']); res.count('B:fn:' + c['fn'])
+        res.count('B:has-below-1' if np.any(flat_in < 1) else 'B:all>=1')
+        if len(res.samples) < 2:
+            res.sample({'part': 'B', **c, 'output': out.tolist()})
+        apply_check(res, SF, 'wrapper', c)
+        if use_model:
+            if c['fn'] == 'normalRadii':
+                lines.append('c15.radii %d %s' % (SID[c['shape']], enc_list(flat_in)))
+            else:
+                lines.append('c15.wrap %d %d %s' % (SID[c['shape']], WRAP.index(c['fn']), enc_list(flat_in)))
+            after.append(('wrap', c, out, flat_after))
+
+    # ---------------- (C) bisection
+    nC = ctx.n(300, 6000) * scale
+    for i in range(nC):
+        c = gen_bisect_case(rng)
+        sf, r, calls = run_bisect(SF, c)
+        iters = len(calls) - 3
+        res.case(('C',) + tuple(sorted(c.items())), iters > 0)
+        res.count('C:kind%d' % c['kind']); res.count('C:' + c['shape'])
+        res.count('C:fallback' if iters >= 100 else 'C:converged')
+        Rs, tol = c['Rs'], c['tol']
+        fm = [R / (Rs * v) - 1 for R, v in calls]
+        res.count('C:bracketed' if fm[0] * fm[1] < 0 else 'C:root-at-Rs' if fm[0] == 0 else 'C:not-bracketed')
+        if len(res.samples) < 3:
+            res.sample({'part': 'C', **c, 'r': r, 'iterations': iters})
+        apply_check(res, SF, 'bisect', c)
+        if use_model:
+            near = any(abs(abs(f) - tol) <= 1e-9 * tol + 1e-13 for f in fm[2:])
+            lines.append('c15.bisect %d %d %s %s %s %s %s %s' % (SID[c['shape']], c['kind'], f2b(c['p0']), f2b(c['p1']), f2b(c['p2']),
+                                                               f2b(tol), f2b(Rs), f2b(c['Rmax'])))
+            after.append(('bisect', c, r, iters, near, calls))
+        res.traces += 1
+    # scalar aspect ratio: closed form
+    for i in range(ctx.n(60, 1000) * scale):
+        sh = rng.choice(SHAPES)
+        ar = rng.choice([0.5, 1.0, 1.0 + 1e-9, 2.0, 2.7, 13.0, 100.0, math.exp(rng.uniform(0, math.log(100)))])
+        Rs = 10 ** rng.uniform(-10, -8)
+        c = {'shape': sh, 'kind': 0, 'p0': ar, 'p1': 0.0, 'p2': 1.0, 'tol': 1e-3, 'Rs': Rs, 'Rmax': 10 * Rs, 'scalar_ar': True}
+        res.case(('Cs', sh, ar, Rs), ar > 1)
+        res.count('C:scalar-aspect')
+        apply_check(res, SF, 'bisect', c)
+        if use_model:
+            sf, r, _ = run_bisect(SF, c)
+            lines.append('c15.rscalar %d %s %s' % (SID[sh], f2b(ar), f2b(Rs))); after.append(('rscalar', c, r))
+
+    # ---------------- model answers
+    if use_model:
+        ans = vlib.run_driver(PROP, lines)
+        for a, what in zip(ans, after):
+            t = Toks(a)
+            if not t.ok:
+                res.disagree('model error ' + str(t.err), what[1] if isinstance(what[1], dict) else what[1:3], 'ok', a); continue
+            if what[0] == 'gen':
+                _, sh, ars, impl = what
+                m = np.array(t.flts()).reshape(len(ars), 6)
+                for j, col in enumerate(['normalRadii[0]', 'normalRadii[1]', 'normalRadii[2]', '_eqRadius', '_thermoFactor', '_kineticFactor']):
+                    bad = [i for i in range(len(ars)) if not close(impl[i, j], m[i, j], 1e-9)]
+                    if bad:
+                        i = bad[0]
+                        res.disagree('generated def %s_%s' % (sh, col), {'shape': sh, 'ar': ars[i]}, float(impl[i, j]), float(m[i, j]))
+            elif what[0] == 'mins':
+                _, sh, mins = what
+                m = t.flts()
+                if not vlib.all_close(mins, m, 1e-12):
+                    res.disagree('generated Min constants', {'shape': sh}, mins, m)
+            elif what[0] == 'wrap':
+                _, c, out, flat_after = what
+                marr, msc, mafter = t.flts(), t.flts(), t.flts()
+                if not vlib.all_close(out, marr, 1e-9):
+                    res.disagree('wrapper array call', c, out.tolist(), marr)
+                if not vlib.all_close(marr, msc, 0.0):
+                    res.disagree('model: array call != scalar calls', c, marr, msc)
+                if not vlib.all_close(flat_after, mafter, 0.0):
+                    res.disagree('caller\'s array after the call', c, flat_after.tolist(), mafter)
+            elif what[0] == 'bisect':
+                _, c, r, iters, near, calls = what
+                fb, mit, mr = t.bool(), t.nat(), t.flt()
+                if (fb != (iters >= 100)) or mit != iters or not close(mr, r, 1e-12):
+                    if near:
+                        res.near_tie_skipped += 1
+                    else:
+                        res.disagree('_findRcrit (fallback, iterations, result)', c, [iters >= 100, iters, r], [fb, mit, mr])
+            elif what[0] == 'rscalar':
+                _, c, r = what
+                if not close(t.flt(), r, 1e-12):
+                    res.disagree('_findRcritScalar', c, r, a)
+
+    # ---------------- (D) direct oracle on grids
+    g = fine_grid(ctx.n(400, 20000) * scale)
+    below = [0.999999999, 0.5, 0.0, -3.0]
+    for sh in SHAPES:
+        ars = np.concatenate([g, [0.5, 0.0, 1.0]])
+        apply_check(res, SF, 'axes', {'shape': sh, 'ars': ars.tolist()}, short={'shape': sh, 'ars': 'fine_grid'})
+        apply_check(res, SF, 'at_one', {'shape': sh, 'below': below})
+        for fn in WRAP + ['normalRadii']:
+            for k in KGRID[5:]:
+                apply_check(res, SF, 'continuity', {'shape': sh, 'fn': fn, 'k': k})
+                res.case(('D-cont', sh, fn, k), True)
+        res.count('D:continuity-probes', 4 * len(KGRID[5:]))
+        if sh in ('needle', 'plate'):
+            for fn in WRAP:
+                apply_check(res, SF, 'monotone', {'shape': sh, 'fn': fn, 'grid': g.tolist()}, short={'shape': sh, 'fn': fn, 'grid': 'fine_grid'})
+                res.case(('D-mono', sh, fn, len(g)), True)
+        res.count('D:grid-points', len(g))
+    nQ = ctx.n(20, 400) * scale
+    for sh in ('needle', 'plate', 'cuboid'):
+        for ar in [1.0 + 1e-6, 1.001, 2.0, 100.0] + [math.exp(rng.uniform(0.0, math.log(100.0))) for _ in range(nQ)]:
+            apply_check(res, SF, 'quad', {'shape': sh, 'ar': ar})
+            res.case(('D-quad', sh, ar), True)
+            res.count('D:quadrature' if sh != 'cuboid' else 'D:cuboid-geometry')
+    # ShapeFactor (function of radius) delegates to the description with ar(R); argument arrays untouched
+    for sh in SHAPES:
+        sf = SF.ShapeFactor()
+        ident = lambda R: R                      # aspect ratio = the radius array itself (same object)
+        sf.setPrecipitateShape(CLS_NAME[sh], ident)
+        R = np.array([0.25, 0.75, 1.0, 1.5, 4.0, 60.0])
+        R0 = R.copy()
+        for fn in WRAP + ['normalRadii']:
+            v = getattr(sf, fn)(R)
+            w = getattr(sf.description, fn)(R0.copy())
+            if not np.array_equal(np.asarray(v), np.asarray(w)):
+                res.violate('shapefactor-delegation:%s:%s' % (sh, fn), 'ShapeFactor.%s(R) differs from description.%s(aspectRatio(R))' % (fn, fn),
+                            {'chk': 'none', 'shape': sh}, np.asarray(v).tolist(), np.asarray(w).tolist())
+            if not np.array_equal(R, R0):
+                res.violate('argument-modified:radius-array', 'ShapeFactor.%s(R) with aspectRatio = identity wrote into the radius array' % fn,
+                            {'chk': 'none', 'shape': sh, 'fn': fn}, R.tolist(), R0.tolist())
+                R = R0.copy()
+            res.case(('D-sf', sh, fn), True)
+    return res
+
+
+def search(ctx, broken):
+    """something no longer checks: oracle alone on a larger sample"""
+    return corr(ctx, oracle_only=True, scale=3)
+
+
+def replay(ctx, entry):
+    v = entry['violation']
+    c = v['case']
+    SF = load()
+    name = c.get('chk')
+    if name not in CHECKS:
+        r = corr(vlib.Ctx(PROP, entry.get('tier', 'quick'), entry.get('seed', 0)), oracle_only=True)
+        hits = [x for x in r.violations if x['key'] == v['key']]
+    else:
+        args = dict(c['args'])
+        if args.get('ars') == 'fine_grid':
+            args['ars'] = np.concatenate([fine_grid(400), [0.5, 0.0, 1.0]]).tolist()
+        if args.get('grid') == 'fine_grid':
+            args['grid'] = fine_grid(400).tolist()
+        hits = [{'key': k, 'what': w, 'observed': o, 'required': q} for k, w, o, q in CHECKS[name](SF, args)]
+    for x in hits:
+        print('  ', x['key'], x['what'], x.get('observed'), x.get('required'))
+    return not hits
